@@ -268,10 +268,10 @@ func init() {
 		ID:      "C14",
 		PkgDirs: []string{"internal/session", "cmd/thruserv"},
 		Level:   "other",
-		Explanation: "session.Store (Create/GetByJoinCode/Delete/Count) is executed symbolically for every history of 4 (quick) / 6 (thorough) operations over up to 3 sessions with crypto/rand as symbolic bytes and time.Now as a symbolic non-decreasing clock: live join codes pairwise distinct, lookup succeeds exactly from creation until deletion or expiry, never afterwards, ttl 0 never expires. connLimiter and tokenBucket (cmd/thruserv) are checked by one-step induction from an arbitrary state satisfying the representation invariant (0 <= inUse <= limit, 0 <= tokens <= burst) with float64 as SMT floating point.",
+		Explanation: "session.Store (Create/GetByJoinCode/Delete/Count) is executed symbolically for every history of 4 (quick) / 5 (thorough) operations over up to 3 sessions with crypto/rand as symbolic bytes and time.Now as a symbolic non-decreasing clock: live join codes pairwise distinct, lookup succeeds exactly from creation until deletion or expiry, never afterwards, ttl 0 never expires. connLimiter and tokenBucket (cmd/thruserv) are checked by one-step induction from an arbitrary state satisfying the representation invariant (0 <= inUse <= limit, 0 <= tokens <= burst) with float64 as SMT floating point.",
 		Rule:        "assertion sites: vAssert lines of H_C14_*",
 		Assumptions: []string{"fresh 128-bit session ids do not collide (generateSessionID stubbed to distinct ids)", "Duration.Seconds over-approximated: any finite seconds >= 0 for a non-negative duration, 0 for 0", "the check-then-act sequences of the HTTP/WebSocket handlers under concurrent arrivals are outside (closures over net/http)", "connLimiter counter far below 2^63"},
-		Bounds: func(tier string) string { return "store histories of 4 (quick) / 6 (thorough) operations, <= 3 sessions; limiter steps from arbitrary valid states" },
+		Bounds: func(tier string) string { return "store histories of 4 (quick) / 5 (thorough) operations, <= 3 sessions; limiter steps from arbitrary valid states" },
 		Jobs: func(tier string, prog *ssa.Program) []*Job {
 			st := hjp("internal/session", "C14.store", "H_C14_store", "store histories")
 			if tier == "thorough" {
@@ -295,6 +295,7 @@ func init() {
 				}
 				return &StrV{b}
 			}
+			st.NoDiff = true // passing paths depend on the symbolic clock (expiry), which a native run cannot be given; counterexamples are replayed as usual
 			st.Unwind = 4
 			st.UnwindIsBound = true
 			st.Workers = 12
@@ -313,7 +314,7 @@ func init() {
 		PkgDirs: []string{"internal/transfer"},
 		Level:   "other",
 		Explanation: "Every control-stream decoder (readControlMessage and the nine read* it dispatches to, readControlHeader, the legacy RecvManifest/readRelPath and RecvFile headers) is executed symbolically on an input buffer of N fully symbolic bytes behind an in-memory stream that reports EOF at its end; the data-stream side is covered by running the real RecvManifestMultiStream (goroutines as symbolic threads) with arbitrary bytes on the data stream after a FileBegin whose chunk size is 4, 0 or huge. " +
-			"Outcomes decided by the solver per path: a Go panic (index, slice, nil, type assertion, divide, negative make) is a violation; a blocked operation is a violation; every make() whose size is a function of input bytes must satisfy bytes <= 64 MiB + 2N for all inputs (sat = concrete hostile message). Counterexamples replay natively (panic, or runtime.MemStats.TotalAlloc delta).",
+			"Outcomes decided by the solver per path: a Go panic (index, slice, nil, type assertion, divide, negative make) is a violation; a blocked operation is a violation; every make() whose size is a function of input bytes must satisfy bytes <= 64 MiB + 2N for all inputs (sat = concrete hostile message). Counterexamples replay natively (panic, or runtime.MemStats.TotalAlloc delta). C15.frame / C15.frame-stray: one arbitrary frame (any index, length, CRC class; right or unknown key; before or after the file is complete) with one preemption of the main loop at a select: additionally a malformed frame is rejected and success implies a file of the announced length. C15.records: up to 3 (thorough 4) well-formed control records in arbitrary order, then end of stream. C15.sender-control(-silent): the real sender with N arbitrary bytes as the receiver's side of the control stream (canonical schedule): it comes back, and reports success only if the bytes were an acknowledgement of its file.",
 		Rule:        "assertion sites: vAssert lines of H_C15_* plus one allocation obligation per make() site whose size depends on input",
 		Assumptions: []string{"input length N case-split 0..24 (quick) / 0..48 (thorough)", "after an input-sized allocation the path is followed for lengths 0..4 (quick) / 0..8 (thorough) elements; longer ones end at the allocation (reported as outside_bound)", "JSON body of the manifest is opaque (Unmarshal: arbitrary outcome)", "the stream returns EOF at the end of the buffer (no stalling peer)"},
 		Bounds: func(tier string) string {
@@ -395,9 +396,9 @@ func init() {
 		ID:      "C01",
 		PkgDirs: []string{"internal/transfer"},
 		Level:   "other",
-		Explanation: "Kernel obligations of fidelity, decided on the real code. (1) The real RecvManifestMultiStream runs from its entry against a scripted healthy sender that delivers a small tree - a directory, a zero-length file in it and one data file of symbolic content around the chunk boundary - with the frames in either order; the receiver's goroutines (control reader, data reader, main loop) are symbolic threads and every schedule in which they can block and wake is explored; asserted: success, every file confirmed once, the data file byte-for-byte the source, the empty file and the directory present. (2) Frame-level fidelity of the receiver (offset, length, bytes, CRC before write, accounting) is the C05.reader closure unit; chunk geometry is C19; sender dispatch is C17. (3) makeVirtualStreamID is injective for connection index < 256 and stream id < 2^56.",
+		Explanation: "Kernel obligations of fidelity, decided on the real code. (1) The real RecvManifestMultiStream runs from its entry against a scripted healthy sender that delivers a small tree - a directory, a zero-length file in it and one data file of symbolic content around the chunk boundary - with the frames in either order; the receiver's goroutines (control reader, data reader, main loop) are symbolic threads and every schedule in which they can block and wake is explored; asserted: success, every file confirmed once, the data file byte-for-byte the source, the empty file and the directory present. (2) Frame-level fidelity of the receiver (offset, length, bytes, CRC before write, accounting) is the C05.reader closure unit; chunk geometry is C19; sender dispatch is C17. (3) makeVirtualStreamID is injective for connection index < 256 and stream id < 2^56. End-to-end obligations: the real SendManifestMultiStream and the real RecvManifestMultiStream run against each other inside one symbolic execution over an in-memory connection of the harness (independent buffered streams), all goroutines of both endpoints as symbolic threads under the canonical schedule (C01.endtoend: files of 1,4,5,8 symbolic bytes plus an empty file, resume on/off; C01.endtoend-preempt: additionally every placement of one preemption at a lock, unlock, channel operation or select): both report success and the output holds exactly the source bytes.",
 		Rule:        "assertion sites: vAssert lines of H_C01_*",
-		Assumptions: []string{"in-memory scripted connection (no QUIC), one data stream; multi-connection runs only through the stream-id function", "sender byte path: one file, one worker, the read pool replaced by the ReadAt it performs; timers may fire once per path", "composition of these kernels into 'identical tree for every configuration' is a paper step"},
+		Assumptions: []string{"end-to-end obligations: canonical schedule (first-created runnable thread continues at blocking points) plus at most one preemption; timers never fire; the sender's read pool is replaced by the ReadAt it performs; the in-memory connection never blocks a writer", "in-memory scripted connection (no QUIC), one data stream; multi-connection runs only through the stream-id function", "sender byte path: one file, one worker, the read pool replaced by the ReadAt it performs; timers may fire once per path", "composition of these kernels into 'identical tree for every configuration' is a paper step"},
 		Bounds:      func(tier string) string { return "data file of 5 bytes (quick) / 1,4,5,8 bytes (thorough), chunk size 4, both frame orders, resume on/off; thorough adds both root-directory modes and both record orders" },
 		Jobs: func(tier string, prog *ssa.Program) []*Job {
 			tr := hj("C01.tree", "H_C01_tree", "healthy scripted sender, every receiver schedule")
@@ -439,9 +440,9 @@ func init() {
 		ID:      "C02",
 		PkgDirs: []string{"internal/transfer"},
 		Level:   "other",
-		Explanation: "Safety part of 'no false success' on the receiver: the real RecvManifestMultiStream runs from its entry against a scripted sender whose every chunk frame is good, carries a wrong CRC field, a payload corrupted in flight, is missing, or is cut short, and whose control stream ends after FileBegin, after FileEnd or after End. Goroutines are symbolic threads; every order in which the main select can observe End, control EOF, data errors and completion signals is explored. Asserted: a nil error implies the output file exists with the announced size, equals the source byte for byte, and no file was declared failed; and no schedule leaves every goroutine blocked (a hang after the input has ended). CRC-before-write and no-mark-on-failure at frame level are the C05.reader obligations. Natively the harness repeats the scenario up to 400 times because Go chooses among ready select cases at random.",
+		Explanation: "Safety part of 'no false success' on the receiver: the real RecvManifestMultiStream runs from its entry against a scripted sender whose every chunk frame is good, carries a wrong CRC field, a payload corrupted in flight, is missing, or is cut short, and whose control stream ends after FileBegin, after FileEnd or after End. Goroutines are symbolic threads; every order in which the main select can observe End, control EOF, data errors and completion signals is explored. Asserted: a nil error implies the output file exists with the announced size, equals the source byte for byte, and no file was declared failed; and no schedule leaves every goroutine blocked (a hang after the input has ended). CRC-before-write and no-mark-on-failure at frame level are the C05.reader obligations. Natively the harness repeats the scenario up to 400 times because Go chooses among ready select cases at random. End-to-end obligations: the real SendManifestMultiStream and the real RecvManifestMultiStream run against each other inside one symbolic execution over an in-memory connection of the harness (independent buffered streams), all goroutines of both endpoints as symbolic threads under the canonical schedule: C02.endtoend-lost - the connection is lost at the n-th write (n < 24) of the control stream in either direction or of the data stream, between two writes or inside one, bytes in flight delivered or dropped, as an error or as a clean end of stream; C02.endtoend-cancel - either caller cancels its context at any observation or while everybody waits (an endpoint that returned an error closes the connection, as the application does). Every side comes back, and a side that reports success implies the complete identical file. C02.obstructed: output path taken by a directory / parent is a file; C02.sender-source: source file shortened or removed after the scan - failure is reported.",
 		Rule:        "assertion sites: vAssert lines of H_C02_receiver plus the no-deadlock obligation per path",
-		Assumptions: []string{"A-CRC3: the in-flight corruption is one CRC-32C detects (always true for payloads up to 4 bytes, 2^-32 otherwise)", "receiver: timers never fire; sender: a timer may fire once per path, the read pool is replaced by the ReadAt it performs, resume off; streams report EOF at their end (no stalling peer); wall-clock bounds are outside this check", "one file of 2 or 5 bytes (quick) / 1,4,5,8 (thorough), chunk size 4, one data stream"},
+		Assumptions: []string{"end-to-end obligations: canonical schedule; a timer may fire once per path (a stall timeout ends the process: counted as loud failure)", "A-CRC3: the in-flight corruption is one CRC-32C detects (always true for payloads up to 4 bytes, 2^-32 otherwise)", "receiver: timers never fire; sender: a timer may fire once per path, the read pool is replaced by the ReadAt it performs, resume off; streams report EOF at their end (no stalling peer); wall-clock bounds are outside this check", "one file of 2 or 5 bytes (quick) / 1,4,5,8 (thorough), chunk size 4, one data stream"},
 		Bounds:      func(tier string) string { return "1-2 chunks, 5 fault kinds per chunk, 3 control endings, resume on/off, all thread schedules at blocking points" },
 		Jobs: func(tier string, prog *ssa.Program) []*Job {
 			r := hj("C02.receiver", "H_C02_receiver", "faulty scripted sender, every receiver schedule")
@@ -493,7 +494,7 @@ func init() {
 		ID:      "C03",
 		PkgDirs: []string{"internal/transfer"},
 		Level:   "other",
-		Explanation: "Partial (no wall-clock liveness, no QUIC): (a) every legal relative path of up to 6 arbitrary bytes (non-empty, not absolute, no '..' segment, no NUL) is accepted by validateRelPath - the sender refuses other names, so rejecting a legal one makes a valid tree untransferable; (b) the real RecvManifestMultiStream runs from its entry as symbolic threads against a scripted sender that resumes a transfer: resume metadata with a symbolic bitmap is on disk, the sender asks for the report, sends what is missing plus a duplicate of a chunk that is already there, possibly after the file is complete; under every schedule at blocking points the call must return success - a state in which every goroutine is blocked (waiting for a stream, message or chunk that will not come) is a violation; (c) the healthy small-tree transfer of C01.tree (directory, zero-length file, fewer chunks than streams) likewise. Scheduler fairness, stream budgets and the blocking accept of announced data streams over QUIC are outside.",
+		Explanation: "Partial (no wall-clock liveness, no QUIC): (a) every legal relative path of up to 6 arbitrary bytes (non-empty, not absolute, no '..' segment, no NUL) is accepted by validateRelPath - the sender refuses other names, so rejecting a legal one makes a valid tree untransferable; (b) the real RecvManifestMultiStream runs from its entry as symbolic threads against a scripted sender that resumes a transfer: resume metadata with a symbolic bitmap is on disk, the sender asks for the report, sends what is missing plus a duplicate of a chunk that is already there, possibly after the file is complete; under every schedule at blocking points the call must return success - a state in which every goroutine is blocked (waiting for a stream, message or chunk that will not come) is a violation; (c) the healthy small-tree transfer of C01.tree (directory, zero-length file, fewer chunks than streams) likewise. Scheduler fairness, stream budgets and the blocking accept of announced data streams over QUIC are outside. C03.endtoend: edge tree shapes (empty manifest, directory only, zero-length file only, one 1-byte file on four streams, two files on two streams; resume on/off) between the real sender and the real receiver in one symbolic execution (canonical schedule; thorough: plus one preemption): both come back with success and the tree is the announced one.",
 		Rule:        "assertion sites: vAssert lines of H_C03_names, vC04Resume plus the no-deadlock obligation per path",
 		Assumptions: []string{"timers never fire; in-memory streams report EOF at their end", "threads that only write acknowledgements or hash a chunk commute with all others and are scheduled eagerly (partial-order reduction)", "marked chunks on disk equal the source (C05)"},
 		Bounds:      func(tier string) string { return "names <= 6 bytes; resumed file of 5 bytes (quick) / 5, 8 (thorough) in 4-byte chunks, all bitmaps, duplicate of chunk 0 before the missing chunks (quick) / any chunk before or after (thorough)" },
@@ -530,9 +531,9 @@ func init() {
 		ID:      "C04",
 		PkgDirs: []string{"internal/transfer"},
 		Level:   "other",
-		Explanation: "Partial: the second run of an interrupted transfer at small scale, plus the sender's plan. (a) The real RecvManifestMultiStream runs from its entry (goroutines as symbolic threads) with resume metadata and a partial file on disk - symbolic bitmap, marked chunks equal to the source as C05 guarantees - against a scripted sender that requests the report and sends exactly the chunks the bitmap does not mark (plus a duplicate): the call succeeds, the file equals the source, and every FileResumeInfo the receiver wrote carries the bitmap found on disk, the file's chunk count and the highest marked chunk as verification point. (b) The sender's real applyResumeInfo closure and nextChunkToSend (C17.plan obligation, re-run here): a chunk is skipped only if reported present below the verification point, every unset chunk is sent, the verification tail and a mismatching hash are re-sent. Every kill point leaving a sound disk state is C05; chains of interrupted runs follow by induction over runs (paper step).",
+		Explanation: "Partial: the second run of an interrupted transfer at small scale, plus the sender's plan. (a) The real RecvManifestMultiStream runs from its entry (goroutines as symbolic threads) with resume metadata and a partial file on disk - symbolic bitmap, marked chunks equal to the source as C05 guarantees - against a scripted sender that requests the report and sends exactly the chunks the bitmap does not mark (plus a duplicate): the call succeeds, the file equals the source, and every FileResumeInfo the receiver wrote carries the bitmap found on disk, the file's chunk count and the highest marked chunk as verification point. (b) The sender's real applyResumeInfo closure and nextChunkToSend (C17.plan obligation, re-run here): a chunk is skipped only if reported present below the verification point, every unset chunk is sent, the verification tail and a mismatching hash are re-sent. Every kill point leaving a sound disk state is C05; chains of interrupted runs follow by induction over runs (paper step). (c) C04.endtoend: the second run with both real endpoints - the real sender plans from what the real receiver reports - for every bitmap and an intact, shortened or missing data file; (d) C04.chain: run 1 is interrupted by a connection loss at the n-th write of a stream, run 2 resumes from whatever run 1 left on disk, both runs with both real endpoints: run 2 succeeds on both sides and the file equals the source.",
 		Rule:        "assertion sites: vAssert lines of vC04Resume and the engine-side assertions of the plan closure unit",
-		Assumptions: []string{"marked chunks on disk equal the source (established by C05)", "timers never fire; threads that only write acknowledgements or hash a chunk are scheduled eagerly", "composition over repeated interruptions is a paper step"},
+		Assumptions: []string{"C04.endtoend / C04.chain: canonical schedule, timers never fire / fire once; interruption kind of the chain is connection loss (process kill points are the C05 crash cuts)", "marked chunks on disk equal the source (established by C05)", "timers never fire; threads that only write acknowledgements or hash a chunk are scheduled eagerly", "composition over repeated interruptions is a paper step"},
 		Bounds:      func(tier string) string { return "file of 5 bytes (quick) / 5, 8 (thorough), chunk size 4, all bitmaps; plan: <= 3 (quick) / 5 (thorough) chunks" },
 		Jobs: func(tier string, prog *ssa.Program) []*Job {
 			r := hj("C04.resume", "H_C04_resume", "resumed transfer: report equals disk metadata, result identical")
@@ -555,7 +556,14 @@ func init() {
 			}
 			ee.Threads, ee.Workers, ee.MaxPaths, ee.TimersNeverFire, ee.CanonicalBlock = true, 16, 5000000, true, true
 			ee.Stubs = map[string]interceptFn{repoModule + "/internal/transfer.readAtWithPool": stubReadAtDirect}
-			return []*Job{r, pl, ee}
+			ch := hj("C04.chain", "H_C04_chain", "run 1 interrupted by connection loss at the n-th write (n < 12), run 2 resumes: both runs with both real endpoints; canonical schedule")
+			if tier == "thorough" {
+				ch = hj("C04.chain", "H_C04_chain_deep", "as quick for 5 and 9 bytes, n < 24")
+			}
+			ch.Threads, ch.Workers, ch.MaxPaths, ch.CanonicalBlock = true, 16, 5000000, true
+			ch.TimerBudget = 1
+			ch.Stubs = map[string]interceptFn{repoModule + "/internal/transfer.readAtWithPool": stubReadAtDirect}
+			return []*Job{r, pl, ee, ch}
 		},
 	})
 
@@ -580,7 +588,7 @@ func init() {
 		ID:      "C06",
 		PkgDirs: []string{"internal/transfer"},
 		Level:   "other",
-		Explanation: "LoadSidecar, BitmapFromBytes, Sidecar.Flush and LoadOrCreateSidecarWithFallback are executed symbolically over a filesystem model: (a) arbitrary file contents of N symbolic bytes: no panic, and acceptance implies magic/version/length/checksum consistency; (b) every single-bit flip and truncation of a Flush output with symbolic fields is rejected; (c) for arbitrary valid sidecars at the primary and fallback path the returned sidecar has the requested identity and chunk count and is empty unless an exact match was loaded. CRC-32C is an uninterpreted function (real value on concrete data).",
+		Explanation: "LoadSidecar, BitmapFromBytes, Sidecar.Flush and LoadOrCreateSidecarWithFallback are executed symbolically over a filesystem model: (a) arbitrary file contents of N symbolic bytes: no panic, and acceptance implies magic/version/length/checksum consistency; (b) every single-bit flip and truncation of a Flush output with symbolic fields is rejected; (c) for arbitrary valid sidecars at the primary and fallback path the returned sidecar has the requested identity and chunk count and is empty unless an exact match was loaded. CRC-32C is an uninterpreted function (real value on concrete data). C06.datafile: the real receiver started next to right-identity metadata whose data file is missing, shortened or intact advertises only chunks whose bytes are on disk. C06.repair: second run with both real endpoints where the highest marked chunk is damaged on disk (its CRC differs): the final file must equal the source - on the current tree this fails for an intact data file and is a recorded known finding (the re-sent chunk can arrive after the receiver finalised the file).",
 		Rule:        "assertion sites: vAssert lines of H_C06_*",
 		Assumptions: []string{"A-CRC1: CRC-32C differs under a single-bit flip of its input (instantiated on the flipped/unflipped pair)", "N <= 40 arbitrary bytes; generated sidecars: id <= 4 bytes, <= 16 chunks (round trip), <= 8 chunks (damage, identity)", "os.ReadFile/WriteFile/Rename/Remove/MkdirAll are the filesystem model of DESIGN §2.3"},
 		Bounds: func(tier string) string { return "arbitrary sidecar files up to 40 bytes; flips at every bit and cuts at every byte of sidecars with <= 4-byte ids and <= 8 chunks" },
@@ -616,7 +624,7 @@ func init() {
 		PkgDirs: []string{"internal/transfer"},
 		Level:   "model_checking",
 		Explanation: "Bounded model checking of the sender's per-file dispatch state machine: the repository's own sendFileState.nextChunkToSend / markChunkDone / trySendEnd (with Bitmap.Get and chunkSizeForIndex) are executed from go/ssa for every sequence of worker steps take(w)/finish(w) interleaved with the arrival of the resume report and of the verification verdict. " +
-			"File size, bitmap bytes, forceSendFrom, verified chunk, verifyNeeded and the verdict are solver variables; the schedule is a sequence of forked choices over the enabled events (workers symmetric). Ghost counters assert exactly-once dispatch, no dispatch of reported chunks below the verification point, one extra dispatch of the mismatching chunk, a single FileEnd only when nothing is in flight, verification is decided and no re-send is outstanding, nothing after FileEnd, and progress to FileEnd when idle.",
+			"File size, bitmap bytes, forceSendFrom, verified chunk, verifyNeeded and the verdict are solver variables; the schedule is a sequence of forked choices over the enabled events (workers symmetric). Ghost counters assert exactly-once dispatch, no dispatch of reported chunks below the verification point, one extra dispatch of the mismatching chunk, a single FileEnd only when nothing is in flight, verification is decided and no re-send is outstanding, nothing after FileEnd, and progress to FileEnd when idle. C17.sender-end: the whole real sender with two data streams (two workers) and one file of two chunks under the canonical schedule plus one (thorough: two) preemptions: at the moment the FileEnd record is written to the control stream every chunk of the file is completely on its data stream.",
 		Rule:        "states = paths explored (one per schedule x data class), transitions = solver queries; assertion sites: vAssert lines of vC17*",
 		Assumptions: []string{"methods are mutex-protected, hence atomic steps (checked by the lock model: a Lock of a held mutex ends the path)", "glue mirrors nextTask / worker loop / applyResumeInfo of SendManifestMultiStream (harness header); a reordering of those call sites is outside what this check sees", "bounds per tier below"},
 		Bounds: func(tier string) string {
